@@ -712,6 +712,35 @@ def bound_rule(f, P, rep):
         rep.violation('C20.3', 'C20.3:check_cluster_leak:bound-from-used', where,
                       'the upper bound of the leak scan depends on the set of referenced clusters: an allocated cluster beyond the '
                       'last referenced one is never examined, so exactly the leaks at the end of the file are missed')
+    # "no unused refcount-table entry found" means the whole table is in use: where the count of leading used entries comes
+    # out of a search (position / find ..) through a defaulting combinator, the default has to be the table size
+    SEARCH = ('::position', '::find', '::find_map', '::rposition', '::take_while', '::skip_while')
+    DEFAULTS = ('Option::<T>::unwrap_or', 'Option::<T>::unwrap_or_default', 'Option::<T>::unwrap_or_else', 'Option::<T>::map_or',
+                'Option::<T>::map_or_else')
+    bodies = [leak] + [c for c in f.body_list if c.path != leak.path and (c.path.startswith(leak.path.rsplit('::{closure', 1)[0].rsplit('::', 1)[0])
+                                                                          and 'check' in c.path and c.is_coroutine)]
+    for cb in bodies:
+        cdp = dp if cb is leak else Deps(P, cb)
+        for bi, t in cb.calls():
+            fn = t.get('fn') or ''
+            if not fn.endswith(DEFAULTS) or not t['args']:
+                continue
+            rd = cdp.of_operand(t['args'][0], (bi, 10 ** 6))
+            if not any(x[0] == 'fn' and x[1].endswith(SEARCH) for x in rd):
+                continue
+            if not any(x[0] == 'fn' and 'RefTable' in x[1] or x[0] == 'field' and x[1] == 'reftable' for x in rd):
+                continue
+            dd = set()
+            for a in t['args'][1:]:
+                dd |= cdp.of_operand(a, (bi, 10 ** 6))
+            sized = any(x[0] == 'fn' and x[1].endswith(('::entries', '::len', '::byte_size')) for x in dd)
+            rep.ob('C20.3', 'default of the refcount-table search at %s' % cb.where(bi), sized,
+                   'the table size' if sized else 'not derived from the size of the table (%s)' % fn.rsplit('::', 1)[-1])
+            if not sized:
+                rep.violation('C20.3', 'C20.3:check_cluster_leak:search-default', cb.where(bi),
+                              'the number of refcount-table entries in use is the result of a search for the first unused entry; when the '
+                              'search finds none (the table is full) the value falls back to something that is not the table size: the '
+                              'leak scan then stops early and leaks counted in later refcount blocks are not reported')
     rep.ob('C20.3', 'scan bound of check_cluster_leak', ok, 'uses %s; rt_index uses %s' % (sorted(got), sorted(want)))
     if not ok:
         rep.violation('C20.3', 'C20.3:check_cluster_leak:bound', where,
